@@ -38,6 +38,9 @@ BARRIER_OPS = {"wait", "reset", "abort"}
 
 
 MUTANTS = [
+    ("closing grid row moved to the last own row", "AegeanTools/BANE.py",
+     "    rows.append(ymax-data_row_min)\n",
+     "    rows.append(ymax-data_row_min-1)\n", "C07-R8"),
     ("exported buffer views alive on the failure path", "AegeanTools/BANE.py",
      "        irms = SharedMemory(name=f'irms_{memory_id}', create=True, size=nbytes)\n",
      "        irms = SharedMemory(name=f'irms_{memory_id}', create=True, size=nbytes)\n"
@@ -227,6 +230,7 @@ def run(ctx):
     r4(ctx, parent)
     r5(ctx, worker, bglobal)
     r6(ctx, parent, tasks_expr, worker)
+    r8_nodes(ctx, prog, worker)
     # ---------------------------------------------------------------- R7
     ctx.rule("C07-R7", "stripe lay-out: rows and columns are never mixed in "
              "the worker -- the halo rows loaded around a stripe, the box "
@@ -951,6 +955,66 @@ def r5(ctx, worker, bglobal):
 
 
 # --------------------------------------------------------------------------
+def r8_nodes(ctx, prog, worker, rule="C07-R8"):
+    """every stripe height gives a legal interpolation grid: the node added
+    after list(range(a, b, s)) is >= b.  range() already holds b-1 whenever
+    (b-1-a) % s == 0, so a closing node b-1 duplicates it for those heights:
+    RegularGridInterpolator refuses a non-ascending axis, the worker dies
+    and the call fails for a perfectly legal (rows, grid, stripes)."""
+    import sympy as sp
+    from .. import sym
+    ctx.rule(rule, "grid nodes strictly ascending for EVERY stripe height: "
+             "the closing node appended to list(range(a, b, step)) is "
+             "provably >= b (a node b-1 repeats the last range element when "
+             "(b-1-a) % step == 0 and the interpolator raises)")
+    mod = prog.modules[worker.module]
+    n = 0
+    for st in walk_no_nested(worker.node):
+        if not (isinstance(st, ast.Assign) and len(st.targets) == 1 and
+                isinstance(st.targets[0], ast.Name)):
+            continue
+        nm = st.targets[0].id
+        v = st.value
+        last = None
+        if isinstance(v, ast.BinOp) and isinstance(v.op, ast.Add) and \
+                isinstance(v.right, ast.List) and len(v.right.elts) == 1:
+            last, v = v.right.elts[0], v.left
+        if isinstance(v, ast.Call) and norm(v.func) == "list" and v.args:
+            v = v.args[0]
+        if not (isinstance(v, ast.Call) and norm(v.func) == "range" and
+                len(v.args) == 3):
+            continue
+        aps = [c for c in walk_no_nested(worker.node)
+               if isinstance(c, ast.Call) and
+               isinstance(c.func, ast.Attribute) and
+               c.func.attr in ("append", "extend", "insert") and
+               norm(c.func.value) == nm]
+        if last is None and len(aps) == 1 and aps[0].func.attr == "append" \
+                and aps[0].args:
+            last = aps[0].args[0]
+        elif aps:
+            raise AnalysisError("%s: node list %s is extended in a way that "
+                                "is not recognised" % (rule, nm))
+        if last is None:
+            continue
+        tr = sym.Translator(prog, mod, {}, free_symbols=True)
+        try:
+            gap = sp.simplify(tr.expr(last) - tr.expr(v.args[1]))
+        except (sym.Untranslatable, TypeError, AttributeError) as e:
+            raise AnalysisError("%s: closing node of %s: %s" % (rule, nm, e))
+        n += 1
+        ok = gap.is_number and gap >= 0
+        ctx.check(rule, worker, "closing node of %s = stop %+d" %
+                  (nm, int(gap)) if gap.is_number else
+                  "closing node of %s = %s" % (nm, norm(last)), bool(ok),
+                  "list(range(%s, %s, %s)) followed by %s: the closing node "
+                  "is not provably >= the range's stop, so for some stripe "
+                  "height it repeats the last range element" %
+                  (norm(v.args[0]), norm(v.args[1]), norm(v.args[2]),
+                   norm(last)), node=last)
+    ctx.floor(rule, n, 2, "node lists (rows, cols)")
+
+
 def r6(ctx, parent, tasks_expr, worker):
     ctx.rule("C07-R6", "tiling: stripe bounds come from range(0,H,w) zipped "
              "with range(w,H,w)+[H] (or the single stripe [0],[H]); each "
